@@ -94,6 +94,19 @@ CLAIMED = {
         "Configurations rejected at construction (e.g. one-sided bound >= 1 on Lattice) are counted, not judged; KFL "
         "checked through its outputs on a half-integer grid.",
         "DESIGN.md section 3 (C10)"),
+    "C11": (
+        "TLA+ model of the round-trip protocol whose state space is every schema class x every single / pair of "
+        "non-default constructor arguments (generated by TLC); real round trips judged by TLC",
+        "RoundTrip.tla defines Create -> GetConfig -> FromConfig -> GetConfig2 -> SetWeights -> Eval and its contract; "
+        "MC_RoundTrip.tla holds the schema of 29 classes (7 layers incl. RTL with seeds, 7 constraints, 7 initializers, "
+        "5 regularizers, FeatureConfig and the three premade model configs with their models, explicit / random / "
+        "rtl_layer ensembles) and TLC enumerates all 1 300 assignments with at most two non-default arguments. Each "
+        "accepted assignment is executed on the real class under the tfl custom objects: get_config, from_config, "
+        "get_config again, set_weights, probe outputs (and for RTL the seed-derived structure); TLC validates that every "
+        "step succeeded, the canonical configs are structurally equal, variables equal and outputs equal.",
+        "Argument combinations the constructors reject are skipped (C16's subject); save/restore during training is "
+        "covered with C03; two repaired defects are listed as fixed.",
+        "DESIGN.md section 3 (C11)"),
     "C12": (
         "TLA+ oracle for every covered constraint kind and an injection state machine model-checked by TLC; real "
         "assert_constraints outcomes judged by TLC against the oracle",
